@@ -140,6 +140,7 @@ pub unsafe fn ring_close(fd: i32) {
         }
         for (g, _) in r.pbufs.iter() {
             simcore::quarantine::watch_remove(PBUF_TAG + *g as u64);
+            simcore::quarantine::pbuf_unregister(PBUF_TAG + *g as u64);
         }
         // requests written to the submission queue but never submitted die with the ring
         let mut r = r;
@@ -219,6 +220,7 @@ pub unsafe fn io_uring_register(fd: i32, opcode: u32, arg: *const c_void, nr_arg
                 r.pbufs.insert(bgid, PbufRing { addr: addr as usize, entries: entries as u16, head: 0 });
                 // the kernel reads the ring whenever an operation selects a buffer, until it is unregistered
                 simcore::quarantine::watch_add(addr as usize, entries as usize * 16, crate::PBUF_TAG + bgid as u64);
+                simcore::quarantine::pbuf_register(crate::PBUF_TAG + bgid as u64, addr as usize, entries as u16);
                 0
             }
             UNREGISTER_PBUF_RING => {
@@ -226,6 +228,7 @@ pub unsafe fn io_uring_register(fd: i32, opcode: u32, arg: *const c_void, nr_arg
                 match r.pbufs.remove(&bgid) {
                     Some(_) => {
                         simcore::quarantine::watch_remove(crate::PBUF_TAG + bgid as u64);
+                        simcore::quarantine::pbuf_unregister(crate::PBUF_TAG + bgid as u64);
                         0
                     }
                     None => -libc::ENOENT,
